@@ -413,6 +413,10 @@ impl Property for C19 {
         ]
         .boxed()
     }
+    fn fuzzable(&self, case: &Case) -> bool {
+        // loopback UDP cases sleep for ~100 ms of real time
+        !matches!(case, Case::Transport { .. })
+    }
     fn run(&self, case: &Case) -> Outcome {
         let mut out = Outcome::default();
         match case {
